@@ -7,7 +7,7 @@ from harness.translators import json_fields
 META = dict(
     id='C05',
     model_run='PG.Model.JsonRun.run',
-    model_targets=['Model/Json.vo', 'Model/JsonText.vo', 'Model/MemFS.vo', 'Model/MemSeq.vo', 'Model/JsonRun.vo'],
+    model_targets=['Model/Json.vo', 'Model/JsonText.vo', 'Model/JsonOpts.vo', 'Model/MemFS.vo', 'Model/MemSeq.vo', 'Model/JsonRun.vo'],
     technique=('Coq proofs over executable models of (1) symbolic to_json/from_json and the int-key encoding of the string form, '
                '(2) the JSON text layer (json.dumps / json.loads), (3) the keyword tables of value specs / key specs / Field / Schema, regenerated from the source by a fail-closed translator, '
                '(4) the in-memory file system with pg.save/pg.load and line sequences on it, (5) in-memory record sequences; '
@@ -69,6 +69,21 @@ class CT(pg.Object):
 class CD(pg.Object):
   m: pg.typing.Dict([(pg.typing.StrKey(), pg.typing.Int())])
   n: pg.typing.List(pg.typing.Object(CT), default=[])
+# classes with defaults and a frozen field whose values stay inside the model (Model/JsonOpts.v)
+class MI(pg.Object):
+  x: pg.typing.Any(default=1)
+  y: pg.typing.Any(default='a')
+class MO(pg.Object):
+  n: pg.typing.Any(default=None)
+  s: pg.typing.Any(default=5)
+  a: pg.typing.Any(default=MI())
+  b: pg.typing.Any(default=MI(x=7))
+  le: pg.typing.Any(default=[])
+  ln: pg.typing.Any(default=[MI(x=7)])
+  d: pg.typing.Any(default={'p': 1, 'q': 2})
+  t: pg.typing.Any(default=(0, 'z'))
+  z: pg.typing.Int().freeze(7)
+  r: pg.typing.Any()
 # classes whose fields have defaults of every kind: the serialization-option sweep
 class OI(pg.Object):
   x: int = 1
@@ -99,12 +114,13 @@ def _define_classes(pg_):
   g = globals()
   ns = dict(pg=pg_, __name__=__name__)
   exec(compile(_CLASS_SRC, __file__ + ':classes', 'exec'), ns)
-  for n in ('CA', 'CB', 'CC', 'CT', 'CD', 'OI', 'OE', 'OO'):
+  for n in ('CA', 'CB', 'CC', 'CT', 'CD', 'OI', 'OE', 'OO', 'MI', 'MO'):
     g[n] = ns[n]
   CA, CB, CC, CT, CD = (ns[n] for n in ('CA', 'CB', 'CC', 'CT', 'CD'))
   _PG['classes'] = dict(CA=CA, CB=CB, CC=CC)
   _PG['typed'] = dict(CT=CT, CD=CD, OI=ns['OI'], OE=ns['OE'], OO=ns['OO'])
   _PG['by_key'] = {c.__serialization_key__: c for c in (CA, CB, CC)}
+  _PG['by_key_x'] = {c.__serialization_key__: c for c in (ns['MI'], ns['MO'])}
   _PG['fields'] = {CA.__serialization_key__: ['x', 'y'], CB.__serialization_key__: [], CC.__serialization_key__: ['z']}
 
 def clean(s):
@@ -160,10 +176,10 @@ def py_to_pv(x):
   if isinstance(x, str): return [4, S(x)]
   if isinstance(x, p.Object):
     key = type(x).__serialization_key__
-    if key not in _PG['by_key']:
+    if key not in _PG['by_key'] and key not in _PG['by_key_x']:
       raise Unconvertible(key)
     out = []
-    for f in _PG['fields'][key]:
+    for f in (_PG['fields'][key] if key in _PG['by_key'] else [str(k) for k in type(x).__schema__.keys()]):
       v = x.sym_getattr(f)
       if v == p.MISSING_VALUE:
         raise Unconvertible('partial')
@@ -199,7 +215,12 @@ def pv_to_py(t, symbolic=True):
     d = {dec_key(k): pv_to_py(v, symbolic) for k, v in t[1]}
     return p.Dict(d) if symbolic else d
   if tag == 8:
-    cls = _PG['by_key'][unS(t[1])]
+    name = unS(t[1])
+    if name in _PG['by_key_x']:
+      cls = _PG['by_key_x'][name]
+      frozen = {str(k) for k, f in cls.__schema__.items() if f.frozen}
+      return cls(**{unS(k): pv_to_py(v, symbolic) for k, v in t[2] if unS(k) not in frozen})
+    cls = _PG['by_key'][name]
     return cls(**{unS(k): pv_to_py(v, symbolic) for k, v in t[2]})
   raise ValueError(t)
 
@@ -1157,6 +1178,46 @@ def random_specials(r, n, vg):
   return out
 
 # ------------------------------------------------------------------------------------------------
+# hide_default_values / hide_frozen against Model/JsonOpts.v
+def classtabx():
+  p = pg()
+  out = []
+  for key, cls in sorted(_PG['by_key_x'].items()):
+    fs = []
+    for k, f in cls.__schema__.items():
+      d = f.default_value
+      fs.append([S(str(k)), [] if d == p.MISSING_VALUE else [py_to_pv(d)], 1 if f.frozen else 0])
+    out.append([S(key), fs])
+  return out
+
+def model_option_values(r, n):
+  """MO instances: every field at its default, at a value Python-equal to the default (True for 1, a reordered dict,
+  an equal copy), at an all-default instance, an empty container, a different value"""
+  p = pg()
+  MI, MO = (_PG['by_key_x'][k] for k in sorted(_PG['by_key_x']))
+  if MI.__name__ != 'MI': MI, MO = MO, MI
+  cand = dict(
+      n=[lambda: None, lambda: MI(), lambda: 0, lambda: []],
+      s=[lambda: 5, lambda: 5.0, lambda: True, lambda: 6, lambda: '5'],
+      a=[lambda: MI(), lambda: MI(x=True), lambda: MI(x=1.0, y='a'), lambda: MI(x=7), lambda: None],
+      b=[lambda: MI(x=7), lambda: MI(), lambda: MI(x=7.0), lambda: MI(x=7, y='b')],
+      le=[lambda: [], lambda: [MI()], lambda: (), lambda: {}],
+      ln=[lambda: [MI(x=7)], lambda: [], lambda: [MI()], lambda: [MI(x=7.0)], lambda: [MI(x=7), MI(x=7)], lambda: (MI(x=7),)],
+      d=[lambda: {'p': 1, 'q': 2}, lambda: {'q': 2, 'p': 1}, lambda: {'p': True, 'q': 2.0}, lambda: {'p': 1}, lambda: {}, lambda: {'p': 1, 'q': 2, 'x': None}],
+      t=[lambda: (0, 'z'), lambda: (False, 'z'), lambda: [0, 'z'], lambda: (0,), lambda: (-0.0, 'z')],
+      r=[lambda: 0, lambda: None, lambda: MI(), lambda: [MI(x=7), {'k': MI()}], lambda: MO(r=MI(y=''))],
+  )
+  out = []
+  for f in sorted(cand):
+    for mk in cand[f]:
+      out.append((lambda f=f, mk=mk: MO(**({f: mk()} if f == 'r' else {f: mk(), 'r': 0}))))
+  for _ in range(n):
+    picks = {f: r.randrange(len(cand[f])) for f in r.sample(sorted(cand), r.randint(2, 6))}
+    picks.setdefault('r', r.randrange(len(cand['r'])))
+    out.append((lambda picks=picks: MO(**{f: cand[f][i]() for f, i in picks.items()})))
+  return out
+
+# ------------------------------------------------------------------------------------------------
 # every serialization option x fields with defaults of every kind x values equal to / near the default
 def option_field_values():
   """field -> candidate values (builders): the default itself, all-default instances, empty containers, non-default values"""
@@ -1481,6 +1542,23 @@ def run(ctx):
       ctx.hit(sig, clean(what), dict(part='special', kind=kind, name=name))
     ctx.count(('special', kind, name), nontrivial=True, kind='special-' + kind)
     oracle_evals += 1
+  # ---- (e0) hide_default_values / hide_frozen against the model (Model/JsonOpts.v) -------------------------------------
+  ctxx = classtabx()
+  for mk in model_option_values(r, ctx.scale(60, 1500)):
+    try:
+      v = mk(); tv = py_to_pv(v)
+    except Exception as e:
+      ctx.broken.append(dict(kind='harness', name='model_option_values', detail='%s: %s' % (type(e).__name__, e))); break
+    for ob in range(4):
+      kw = dict(hide_default_values=bool(ob & 1), hide_frozen=bool(ob & 2))
+      for kind in (0, 1):
+        try:
+          out = json_to_jv(p.to_json(v, **kw)) if kind == 0 else attempt(lambda: p.from_json(p.to_json(v, **kw)))[0]
+        except Exception as e:
+          out = [1, 78, S(type(e).__name__)]
+        add_case([4, [q, ctxx, ob, kind, tv]], out, dict(part='value', kind='opts-%d-%d' % (ob, kind), value=tv))
+      ctx.count(('optmodel', ob, json.dumps(tv)), nontrivial=True, kind='options-model')
+
   # ---- (e) every serialization option x defaults of every kind (oracle only) ------------------------------------
   fresh_memfs()
   ocases = option_cases(r, ctx.scale(25, 600))
